@@ -168,8 +168,8 @@ class World:
             self.orig.append(orig)
         self.regs = [ComponentRegistry(library=self.libs[li], settings=formatter_for(f)) for li, f in regspecs]
         self.reglib = [li for li, _ in regspecs]
+        self.regspecs = regspecs
         self.private = [sum(1 for x in self.reglib if x == li) == 1 for li in self.reglib]
-        self._tag = {}
 
     def close(self):
         # ComponentRegistry.__init__ appends every instance to a module-level list; do not let 10^6 of them pile up
@@ -210,14 +210,14 @@ class World:
 
     def start_tag(self, i, name):
         """What tag the registry's own formatter assigns to `name` (None: it refuses the name)."""
-        key = (i, name)
-        if key not in self._tag:
+        key = ("tag", self.regspecs[i][1], name)       # a formatter is a deterministic function of its spec
+        if key not in _state:
             from django_components.tag_formatter import get_tag_formatter
             try:
-                self._tag[key] = get_tag_formatter(self.regs[i]).start_tag(name)
+                _state[key] = get_tag_formatter(self.regs[i]).start_tag(name)
             except ValueError:
-                self._tag[key] = None
-        return self._tag[key]
+                _state[key] = None
+        return _state[key]
 
 
 # ---------------------------------------------------------------------------------------------
@@ -324,6 +324,9 @@ def do_step(w, libspecs, st, i, o, oracle, notes):
                     o, t, used[t], "absent from library.tags" if t not in snap else "still the pre-existing function")))
             if t not in orig and t in snap and t not in used:
                 fails.append(("c15-tag-iff-used", "%r: tag %r is in library.tags but no registered component uses it" % (o, t)))
+            if t in orig and snap.get(t) is False and t not in used:
+                fails.append(("c15-tag-iff-used", "%r: tag %r (pre-existing, overwritten by a component tag) is still a component tag "
+                                                  "function although no registered component uses it" % (o, t)))
             if t in orig:
                 if t in prot:
                     if snap.get(t) is not True:
@@ -721,9 +724,10 @@ def tree_jobs(thorough):
     Lfull = 5 if thorough else 4
     groups.append(("one-exh%d" % Lfull, [make_job(ls, rs, alpha, Lfull, "one-exh%d" % Lfull) for ls, rs in singles]))
     # 2. ... and one history per orbit for the next length(s)
-    for Lo in ((6,) if thorough else (5,)):
-        for ci, (ls, rs) in enumerate(singles):
-            groups.append(("one-orbit%d" % Lo, [make_job(ls, rs, alpha, Lo, "one-orbit%d" % Lo, orbit=True)]))
+    #    (quick: shorthand formatter + protected tags; thorough: also default formatter + unprotected)
+    Lo = 6 if thorough else 5
+    groups.append(("one-orbit%d" % Lo, [make_job(ls, rs, alpha, Lo, "one-orbit%d" % Lo, orbit=True)
+                                        for ci, (ls, rs) in enumerate(singles) if ci == 3 or (thorough and ci == 0)]))
     # 3. other formatters / protection lists / names, one registry
     Lx = 4 if thorough else 3
     extra = [([(BUILTINS, ["a", "component"])], [(0, ("component", "instance"))], NAMES3),
@@ -734,7 +738,9 @@ def tree_jobs(thorough):
              ([(BUILTINS + ["class"], "default")], [(0, ("shorthand", "instance"))], ["class", "slöt", "a×b"]),
              ([(BUILTINS + ["class"], ["class", "é"])], [(0, ("shorthand", "instance"))], ["class", "é", "None"]),
              # tag == component name colliding with an UNPROTECTED pre-existing tag, next to a protected one
-             ([(BUILTINS, ["fill"])], [(0, ("shorthand", "instance"))], ["component", "slot", "fill"])]
+             ([(BUILTINS, ["fill"])], [(0, ("shorthand", "instance"))], ["component", "slot", "fill"]),
+             # a protected tag that is NOT in the library (must never be created), next to one that is
+             ([(["component", "slot"], "default")], [(0, ("shorthand", "instance"))], ["a", "slot", "provide"])]
     groups.append(("one-extra-exh%d" % Lx, [make_job(ls, rs, alphabet(ns), Lx, "one-extra-exh%d" % Lx) for ls, rs, ns in extra]))
     # 4. two registries on two private libraries: all interleavings
     alpha2 = alphabet(NAMES3, 2)
@@ -742,7 +748,7 @@ def tree_jobs(thorough):
     groups.append(("two-private-exh%d" % L2, [make_job(ls, rs, alpha2, L2, "two-private-exh%d" % L2) for ls, rs in TWO]))
     groups.append(("two-private-orbit4", [make_job(ls, rs, alpha2, 4, "two-private-orbit4", orbit=True) for ls, rs in
                                           (TWO if thorough else TWO[:1])]))
-    if not thorough:
+    if thorough:
         groups.append(("two-private-2names-exh4", [make_job(TWO[1][0], TWO[1][1], alphabet(["a", "slot"], 2), 4, "two-private-2names-exh4")]))
     # 5. OUTSIDE the claimed domain (diagnostic only): two registries sharing one library
     groups.append(("two-shared-diagnostic", [make_job(SHARED[0], SHARED[1], alphabet(["a", "slot"], 2), 3, "two-shared-diagnostic", claimed=False)]))
@@ -884,6 +890,7 @@ def shortest_failing_prefix(ls, rs, ops):
 
 
 def run(tier, seed):
+    pid = "_p%d" % os.getpid()                    # work files of concurrent runs (mutation experiments) must not collide
     import djsetup
     djsetup.setup()
     import gen_constants
@@ -921,74 +928,93 @@ def run(tier, seed):
             oracle_fail(ls, rs, ops, fails)
 
     # ---- exhaustive part: trees ----
+    # All sub-trees of all groups go to the worker pool at once; the results come back in order and are handed to coqc in
+    # batches (so the workers walk the next sub-trees while coqc evaluates the model on the previous ones).
     classes()
     groups = tree_jobs(thorough)
     del JOBS[:]
-    for _, jobs in groups:
-        JOBS.extend(jobs)
-    jid_of = {id(j): n for n, j in enumerate(JOBS)}
+    tasks, task_group = [], []
+    for gname, jobs in groups:
+        for j in jobs:
+            JOBS.append(j)
+            ts = job_tasks(len(JOBS) - 1, seed)
+            tasks += ts
+            task_group += [gname] * len(ts)
     diag = {"cases": 0, "model_disagreements": 0, "first": None}
-    tree_stats = []
-    defs = {}                       # every definition made so far (worker tables persist from group to group)
+    tree_stats = collections.OrderedDict((g, {"group": g, "subtrees": 0, "calls_compared": 0, "maximal_histories": 0}) for g, _ in groups)
+    defs = {}                       # every definition made so far (worker tables persist from task to task)
+    batch = {"terms": [], "tasks": [], "used": set(), "nodes": 0, "n": 0}
+
+    def locate(task):
+        """the shortest disagreeing history inside a refused sub-tree"""
+        job = JOBS[task[0]]
+        r = walk_task(task, collect_paths=True)
+        defs.update(r["defs"])
+        paths = r["paths"][:20000]
+        pterms = [path_term(job["ls"], job["rs"], h, ob) for h, ob in paths]
+        defs.update(I.drain())
+        pbad = C.coq_eval_cases("C15", "locate" + pid, IMPORTS, PATH_TYPE, "check_path_case", pterms, shard=2500,
+                                extra_defs=defs_text(defs, names_in(pterms)))
+        if not job["claimed"]:
+            diag["model_disagreements"] += len(pbad) or 1
+            if diag["first"] is None and pbad:
+                diag["first"] = replay_obj(job["ls"], job["rs"], paths[pbad[0]][0])
+            return
+        if not pbad:
+            disagree(job["ls"], job["rs"], [g_apply(task[3], op) for op in task[1]], "somewhere below this prefix")
+            return
+        h, ob = paths[pbad[0]]
+        pre = [path_term(job["ls"], job["rs"], h[:n], ob[:n]) for n in range(1, len(h) + 1)]
+        defs.update(I.drain())
+        qbad = C.coq_eval_cases("C15", "locate2" + pid, IMPORTS, PATH_TYPE, "check_path_case", pre, shard=2500,
+                                extra_defs=defs_text(defs, names_in(pre)))
+        n = (qbad[0] + 1) if qbad else len(h)
+        disagree(job["ls"], job["rs"], h[:n], "shortest disagreeing history of its sub-tree")
+
+    def flush():
+        if not batch["terms"]:
+            return
+        per_file = max(20000, min(100000, batch["nodes"] // C.NCPU + 1))
+        per_term = max(1, batch["nodes"] // len(batch["terms"]))
+        bad = C.coq_eval_cases("C15", "tree%d" % batch["n"] + pid, IMPORTS, TREE_TYPE, "check_forest_case", batch["terms"],
+                               shard=max(1, per_file // per_term), extra_defs=defs_text(defs, batch["used"]))
+        btasks = batch["tasks"]
+        batch.update({"terms": [], "tasks": [], "used": set(), "nodes": 0, "n": batch["n"] + 1})
+        for bi in bad[:3]:
+            locate(btasks[bi])
+        state["ndis"] += sum(1 for bi in bad[3:] if JOBS[btasks[bi][0]]["claimed"])
+
     pool = multiprocessing.get_context("fork").Pool(processes=C.NCPU)
     try:
-        for gname, jobs in groups:
-            tasks = []
-            for j in jobs:
-                tasks += job_tasks(jid_of[id(j)], seed)
-            terms, used, nodes = [], set(), 0
-            for r in pool.imap(_pool_walk, tasks, chunksize=1):
-                job = JOBS[r["task"][0]]
-                terms.append(r["term"])
-                defs.update(r["defs"])
-                used |= r["used"]
-                nodes += r["nodes"]
-                notes.update(r["notes"])
-                if job["claimed"]:
-                    chk.evaluations += r["leaves"]
-                    chk.nontrivial.update(r["nontrivial"])
-                    chk.dist[job["kind"]] += r["leaves"]
-                    for trig, what, hist in r["fails"]:
-                        oracle_fail(job["ls"], job["rs"], hist, [(trig, what)])
-                else:
-                    chk.dist[job["kind"]] += r["leaves"]
-                    diag["cases"] += r["leaves"]
-            per = max(1, nodes // max(1, len(terms)))
-            bad = C.coq_eval_cases("C15", "tree_" + gname.replace("-", "_"), IMPORTS, TREE_TYPE, "check_forest_case", terms,
-                                   shard=max(1, 20000 // per), extra_defs=defs_text(defs, used))
-            tree_stats.append({"group": gname, "subtrees": len(terms), "calls_compared": nodes})
-            del terms
-            # locate the shortest disagreeing history inside a refused sub-tree
-            for bi in bad[:3]:
-                task = tasks[bi]
-                job = JOBS[task[0]]
-                r = walk_task(task, collect_paths=True)
-                defs.update(r["defs"])
-                paths = r["paths"][:20000]
-                pterms = [path_term(job["ls"], job["rs"], h, ob) for h, ob in paths]
-                defs.update(I.drain())
-                pbad = C.coq_eval_cases("C15", "locate", IMPORTS, PATH_TYPE, "check_path_case", pterms, shard=2500,
-                                        extra_defs=defs_text(defs, names_in(pterms)))
-                if not job["claimed"]:
-                    diag["model_disagreements"] += len(pbad) or 1
-                    if diag["first"] is None and pbad:
-                        diag["first"] = replay_obj(job["ls"], job["rs"], paths[pbad[0]][0])
-                    continue
-                if not pbad:
-                    disagree(job["ls"], job["rs"], [g_apply(task[3], op) for op in task[1]], "somewhere below this prefix")
-                    continue
-                h, ob = paths[pbad[0]]
-                pre = [path_term(job["ls"], job["rs"], h[:n], ob[:n]) for n in range(1, len(h) + 1)]
-                defs.update(I.drain())
-                qbad = C.coq_eval_cases("C15", "locate2", IMPORTS, PATH_TYPE, "check_path_case", pre, shard=2500,
-                                        extra_defs=defs_text(defs, names_in(pre)))
-                n = (qbad[0] + 1) if qbad else len(h)
-                disagree(job["ls"], job["rs"], h[:n], "shortest disagreeing history of its sub-tree")
-            if len(bad) > 3 and any(JOBS[tasks[bi][0]]["claimed"] for bi in bad[3:]):
-                state["ndis"] += len(bad) - 3
+        last = None
+        for ti, r in enumerate(pool.imap(_pool_walk, tasks, chunksize=1)):
+            if task_group[ti] != last or batch["nodes"] >= 1600000:
+                flush()
+                last = task_group[ti]
+            job = JOBS[r["task"][0]]
+            batch["terms"].append(r["term"])
+            batch["tasks"].append(r["task"])
+            batch["used"] |= r["used"]
+            batch["nodes"] += r["nodes"]
+            defs.update(r["defs"])
+            notes.update(r["notes"])
+            ts = tree_stats[task_group[ti]]
+            ts["subtrees"] += 1
+            ts["calls_compared"] += r["nodes"]
+            ts["maximal_histories"] += r["leaves"]
+            chk.dist[job["kind"]] += r["leaves"]
+            if job["claimed"]:
+                chk.evaluations += r["leaves"]
+                chk.nontrivial.update(r["nontrivial"])
+                for trig, what, hist in r["fails"]:
+                    oracle_fail(job["ls"], job["rs"], hist, [(trig, what)])
+            else:
+                diag["cases"] += r["leaves"]
+        flush()
     finally:
         pool.terminate()
         pool.join()
+    tree_stats = list(tree_stats.values())
 
     # ---- random long histories (one path case each) ----
     rterms, rcases, dterms, dcases = [], [], [], []
@@ -1010,11 +1036,11 @@ def run(tier, seed):
         rcases.append((ls, rs, ops))
     defs.update(I.drain())
     dt = defs_text(defs, names_in(rterms) | names_in(dterms))
-    bad = C.coq_eval_cases("C15", "random", IMPORTS, PATH_TYPE, "check_path_case", rterms, shard=400, extra_defs=dt) if rterms else []
+    bad = C.coq_eval_cases("C15", "random" + pid, IMPORTS, PATH_TYPE, "check_path_case", rterms, shard=400, extra_defs=dt) if rterms else []
     for i in sorted(bad, key=lambda i: len(rcases[i][2])):
         ls, rs, ops = rcases[i]
         disagree(ls, rs, ops, "random history")
-    dbad = C.coq_eval_cases("C15", "diag", IMPORTS, PATH_TYPE, "check_path_case", dterms, shard=400, extra_defs=dt) if dterms else []
+    dbad = C.coq_eval_cases("C15", "diag" + pid, IMPORTS, PATH_TYPE, "check_path_case", dterms, shard=400, extra_defs=dt) if dterms else []
     diag["model_disagreements"] += len(dbad)
     if dbad and diag["first"] is None:
         diag["first"] = replay_obj(*dcases[dbad[0]])
@@ -1037,7 +1063,7 @@ def run(tier, seed):
     vt = valid_tag_cases(chk, thorough)
     for s, ok in vt:
         chk.count(("valid", s), False, kind="valid_tag")
-    vbad = C.coq_eval_cases("C15", "valid", IMPORTS, "str * bool", "check_valid",
+    vbad = C.coq_eval_cases("C15", "valid" + pid, IMPORTS, "str * bool", "check_valid",
                             ["(%s, %s)" % (cstr(s), cbool(ok)) for s, ok in vt], shard=4000)
     for i in vbad[:5]:
         chk.disagree("valid_tag matcher != InternalTagFormatter._validate_tag", {"kind": "valid_tag", "tag": vt[i][0], "impl_accepts": vt[i][1]})
@@ -1050,6 +1076,9 @@ def run(tier, seed):
         "(coq/Gen/C15.v tag_ranges_hi); single-threaded use",
     ]
     Lf, Lo = (5, 6) if thorough else (4, 5)
+    tm = os.times()
+    chk.extra["cpu_seconds"] = {"main_process": round(tm.user + tm.system, 1), "workers_and_coqc": round(tm.children_user + tm.children_system, 1),
+                                "jobs": C.NCPU}
     return chk.finish(
         rule="Calls = {register x 3 names (a, slot, fill) x 3 classes (K0; K1 and K1b = two class objects with ONE _class_hash), unregister, get} "
              "+ clear + all = 17 per registry. One registry, default / shorthand formatter x Library without / with mark_protected_tags (4 "
@@ -1059,9 +1088,9 @@ def run(tier, seed):
              "invariant under G; the canonical histories (first call naming slot/fill names slot, first registration of K1/K1b registers K1) are "
              "closed under prefixes, so they are enumerated as a tree without building the rest, and of every sub-tree the image under a member "
              "of G drawn from the seed is what is run - each orbit exactly once, no member systematically skipped; that the code does not tell "
-             "members of an orbit apart is NOT assumed up to length %d, where all of them are run. 7 further configurations (custom protected "
+             "members of an orbit apart is NOT assumed up to length %d, where all of them are run. 8 further configurations (custom protected "
              "list, user-defined formatter, empty library, invalid ComponentFormatter tag, keyword / non-ASCII / non-word names, tag == name "
-             "colliding with an unprotected pre-existing tag next to a protected one): all histories of length %d. Two registries on two private "
+             "colliding with an unprotected pre-existing tag next to a protected one, protected tag absent from the library): all histories of length %d. Two registries on two private "
              "libraries, 34 calls: all interleavings of length 3 (2 configurations), one per orbit of length 4 (%s)%s. Histories are produced and "
              "compared as trees (a node = one call + result + all() of every registry + tag table of every library; theorem "
              "tree_check_is_per_history_check). Seeded random histories of 7..40 calls over 1-3 registries, 31 names (invalid, newline, protected, "
